@@ -11,6 +11,7 @@ import FB.PathNorm
 import FB.Backups
 import FB.Overlay
 import FB.Rollback
+import FB.MakeDirs
 import FB.Conc
 open FB FB.Wire
 open Lean (Json)
@@ -450,6 +451,23 @@ def runRB (j : Lean.Json) : Except String Lean.Json := do
   let r : FB.Rollback.RB := { createdDirs, newOutputs, oldOutputs, oldCreatedDirs, bk := { saved, absent } }
   return Json.mkObj [("tree", showTree (FB.Rollback.rollBack fs r))]
 
+/-- `_make_dirs` (`FB.MakeDirs`): directories to make, old outputs, optional fault at the k-th `mkdir` -/
+def runMD (j : Lean.Json) : Except String Lean.Json := do
+  let fs ← parseTree (← j.getObjVal? "tree")
+  let dirs ← getPaths (← j.getObjVal? "dirs")
+  let oldCreated ← getPaths (← j.getObjVal? "oldCreated")
+  let failAt : Option Nat := match j.getObjVal? "failAt" with
+    | .ok (.num n) => some n.mantissa.toNat
+    | _ => none
+  let showSt (st : FB.MakeDirs.St) (kind : String) : Lean.Json := Json.mkObj [
+    ("outcome", .str kind), ("tree", showTree st.fs), ("made", showPaths st.made),
+    ("saved", .arr (st.bk.saved.map fun (p, e) => match e with
+        | .file c m => Lean.Json.arr #[.str (showPath p), .str c, .num (.fromNat m)]
+        | .dir => Lean.Json.arr #[.str (showPath p), .str "dir"]).toArray)]
+  match FB.MakeDirs.makeDirs fs {} dirs oldCreated failAt with
+  | .ok st => return showSt st "ok"
+  | .error st => return showSt st "OSError"
+
 def handle (line : String) : Lean.Json :=
   match Lean.Json.parse line with
   | .error e => Json.mkObj [("bad-op", .str e)]
@@ -467,6 +485,7 @@ def handle (line : String) : Lean.Json :=
       | "bk" => runBK j
       | "ov" => runOV j
       | "rb" => runRB j
+      | "md" => runMD j
       | k => throw s!"unknown kind {k}"
     match r with
     | .ok out => out.setObjVal! "id" id
